@@ -278,7 +278,7 @@ fn gen_scripts(r: &mut Rng, m: usize, full: bool) -> Vec<Vec<Cmd>> {
     v
 }
 
-fn sx_metrics<N, const K: usize>(t: &Tree<N, K>) -> String {
+fn sx_metrics<N: Clone, const K: usize>(t: &Tree<N, K>) -> String {
     let mut s = String::from("(metrics");
     let nodes: Vec<TreeIndex> = t.node_indices().collect();
     s.push_str(" (num_nodes");
@@ -325,6 +325,11 @@ fn sx_metrics<N, const K: usize>(t: &Tree<N, K>) -> String {
     write!(s, " (nodes {})", list(t.nodes().map(|n| n.idx).collect())).unwrap();
     write!(s, " (terminal_indices {})", list(t.terminal_indices().collect())).unwrap();
     write!(s, " (terminals {})", list(t.terminals().map(|n| n.idx).collect())).unwrap();
+    {
+        // the mutable variant goes through its own filter
+        let mut tm = t.clone();
+        write!(s, " (terminals_mut {})", list(tm.terminals_mut().map(|n| n.idx).collect())).unwrap();
+    }
     write!(s, " (decision_indices {})", list(t.decision_indices().collect())).unwrap();
     write!(s, " (decisions {})", list(t.decisions().map(|n| n.idx).collect())).unwrap();
     // dfs_iter / dfs_edge_iter through the Iterator interface
